@@ -7,7 +7,7 @@ spec/seq/Iter.tla (+ PairIter.tla)   I layer: cursor states as coded;  P layer: 
                                      harness/iterdrv replays them on the real iterators (P -> violation, I -> drift)
   3. TRACE  IterTrace / PairIterTrace seeded random deep trees run on the real iterators, judged by TLC
 """
-import json, os
+import json, os, re
 import common
 from common import run_tlc, Scratch, Infra, log
 
@@ -90,6 +90,10 @@ def check(run, replay=None):
             tables = r.json_prints("tables")
             if not cases or not tables:
                 raise Infra("%sGen printed %d cases and %d tables" % (MOD[pid], len(cases), len(tables)))
+            # one line per wrapped expression: nothing may be lost or garbled on the way
+            m = re.search(r"Finished computing initial states: (\d+) distinct", r.out)
+            if not m or len(cases) != r.distinct - int(m.group(1)):
+                raise Infra("%sGen: %d cases parsed, %d distinct states, initial states %s" % (MOD[pid], len(cases), r.distinct, m and m.group(1)))
             run.add_mc(MOD[pid] + "Gen", r, c)
             replay_cases(run, binp, d, "g%d" % gi, tables, cases, c)
             run.notes["trees_replayed"] = run.notes.get("trees_replayed", 0) + len(cases)
